@@ -7,7 +7,7 @@ from ..idx import index
 from ..px import OK, PX, RAISE, Outcomes
 from ..pxv import Obj, Sym
 from ..te import TypeRef
-from .util import const, self_obj
+from .util import const, same_class, self_obj
 
 APP = "bellows.zigbee.application"
 KEEPALIVE_CALLS = ("self._ezsp.nop", "self._ezsp.read_counters", "self._ezsp.read_and_clear_counters")
@@ -42,7 +42,7 @@ def r19_1(ctx):
             for c in (0, 1, PERIOD - 2, PERIOD - 1, PERIOD, 2 * PERIOD - 1):
                 if ver == 4 and c not in (0, PERIOD - 1):
                     continue
-                px = PX(repo, models=models, inline=lambda g, aw: False)
+                px = PX(repo, models=models, inline=same_class())
 
                 def setup():
                     ez = Obj(TypeRef("EZSP"), {"ezsp_version": ver}, tag="self._ezsp")
@@ -107,7 +107,7 @@ def r19_2(ctx):
                         f"{attr}:writer:{g.short}", f"{attr} is written in {g.short}", func=g, node=n)
     f = repo.func(f"{APP}:ControllerApplication._watchdog_loop")
     ctx.fn(f)
-    px = PX(repo, inline=lambda g, aw: False)
+    px = PX(repo, inline=same_class())
     paths = px.explore(f, lambda: (self_obj(app_cls(ctx), {"_watchdog_failures": 3, "_watchdog_feed_counter": 77}), {}))
     for p in paths:
         i = p.index(lambda e: e.kind == "await" and e.what.startswith("super()."))
